@@ -75,10 +75,13 @@ def s_scenarios():
         ("quit|fetch", [{"op": "fetch", "set": "1:*", "items": "(UID BODY.PEEK[HEADER.FIELDS (SUBJECT)])", "uid": True}]),
         ("quit|move", [{"op": "move", "set": "2", "dst": "other"}]),
         ("quit|append", [{"op": "append", "m": "INBOX", "cid": "qa1"}]),
+        ("quit|fetchall slow reader", [{"op": "fetch", "set": "1:*", "items": "(UID BODY.PEEK[HEADER.FIELDS (SUBJECT)])"}]),
     ]:
         out.append({"name": name, "cfg_ref": ["vf.props.c20", "cfg", [3]], "prelude": pre, "loopopts": {"preempt_timers": False},
                     "concurrent": {"A": [dict(c, s="A") for c in acmds],
                                    "P": [{"s": "P", "op": "pop", "line": "QUIT", "marked_uids": [1]}]}})
+        if "slow" in name:
+            out[-1]["slow"] = ["A"]  # the IMAP peer reads slowly: its FETCH may park after any response
     return out
 
 
